@@ -428,7 +428,7 @@ def check_crate(fx, rep, crate, tag):
             if not info or info.get('kind') != 'cmp' or info['op'] not in ('Eq', 'Ge', 'Ne', 'Lt'):
                 continue
             a_is_rc = (info['a'].get('kind') == 'place' and any(n == read_cursor for _, n in info['a'].get('fields', []))) or same_as_advance(info['a_op'])
-            b_is_len = info['b'].get('kind') == 'call' and (info['b']['callee'].get('name') in ('len', 'capacity')) and \
+            b_is_len = info['b'].get('kind') == 'call' and (info['b']['callee'].get('name') == 'len') and \
                 C.trace_field(body, info['b']['args'][0], RC) == buffer_field
             if not (a_is_rc and b_is_len):
                 continue
